@@ -175,6 +175,35 @@ def run(ctx):
                 violations.append({"signature": "availability:%s" % k2, "what": "subclass lost its %s after a sibling class was defined: %s" % (k2, str(e)[:120]), "replay": rp})
         if i == 3:
             samples.append(rp)
+    # subclasses that add only ONE kind of extension (no new rule method), in pairs of siblings
+    def accepts(cls, schema):
+        try:
+            cls(copy.deepcopy(schema))
+            return True
+        except cerberus.SchemaError:
+            return False
+    for i in range(200 if thorough else 40):
+        kind = rng.choice(['check_with', 'coercer', 'setter'])
+        prefix = {'check_with': '_check_with_', 'coercer': '_normalize_coerce_', 'setter': '_normalize_default_setter_'}[kind]
+        rule = {'check_with': 'check_with', 'coercer': 'coerce', 'setter': 'default_setter'}[kind]
+        na, nb = "xa%d" % i, "xb%d" % i
+        parent = rng.choice([cerberus.Validator, pool.PoolValidator])
+        A = type('OnlyA%d' % i, (parent,), {prefix + na: (lambda self, *a: None)})
+        sa = {'f': {'type': 'list', 'schema': {rule: na}}} if rng.random() < 0.5 else {'f': {rule: na}}
+        ok_before = accepts(A, sa)
+        B = type('OnlyB%d' % i, (parent,), {prefix + nb: (lambda self, *a: None)})
+        sb = {'f': {rule: nb}}
+        cases += 1
+        dist["single-kind-pair_" + kind] += 1
+        rp = {"kind": kind, "schema_a": common.jval(sa), "schema_b": common.jval(sb), "parent": parent.__name__}
+        if not ok_before or not accepts(A, sa):
+            violations.append({"signature": "availability:%s" % kind, "what": "a subclass that only adds a %s lost it after a sibling class was defined" % kind, "replay": rp})
+        if not accepts(B, sb):
+            violations.append({"signature": "availability:%s" % kind, "what": "the sibling subclass rejects its own %s" % kind, "replay": rp})
+        for cls, sch, who in ((parent, sa, "parent class"), (parent, sb, "parent class"), (A, sb, "sibling"), (B, sa, "sibling")):
+            cls.clear_caches()
+            if accepts(cls, sch):
+                violations.append({"signature": "isolation:%s" % kind, "what": "the %s accepts a %s defined on another subclass" % (who, kind), "replay": rp})
     return {"violations": violations, "cases": cases, "nontrivial": len(distinct), "model_cases": 0, "disagreements_checked": 0,
             "samples": samples, "distribution": dict(dist),
             "rule": "per case a fresh subclass (custom rule, type, coercer, default setter, check_with method; every extension records the class and the extra "
